@@ -904,13 +904,15 @@ Proof.
 Qed.
 
 Lemma attr_rel_respelled P n n' p p' local uri :
-  ConvQName.is_ncname local = true -> ConvQName.is_ncname p = true -> ConvQName.is_ncname p' = true ->
+  good_name local = true -> good_name p = true -> good_name p' = true ->
   ns_get (Some p) n = Some uri -> ns_get (Some p') n' = Some uri -> uri <> [] ->
   attr_rel P qconv n n' (XSI_TYPE, qlex (Some p) local) (XSI_TYPE, qlex (Some p') local).
 Proof.
-  intros Hl Hp Hp' Hn Hn' Hu. apply attr_rel_xsi_type.
+  intros Gl Gp Gp' Hn Hn' Hu.
+  destruct (good_name_parts local Gl) as [Hl _]. destruct (good_name_parts p Gp) as [Hp _]. destruct (good_name_parts p' Gp') as [Hp' _].
+  apply attr_rel_xsi_type.
   - cbn [qconv c_deser existsb ptype_eqb orb].
-    pose proof (qname_respelling (Some p) (Some p') local n n' [] [] [] [] Hl Hp Hp' eq_refl eq_refl eq_refl eq_refl) as H.
+    pose proof (qname_respelling (Some p) (Some p') local n n' [] [] [] [] Gl Gp Gp' eq_refl eq_refl eq_refl eq_refl) as H.
     cbn [app] in H. rewrite !app_nil_r in H. rewrite H; [reflexivity| |].
     + rewrite Hn, Hn'. reflexivity.
     + left. rewrite Hn. destruct uri; [congruence|discriminate].
